@@ -250,48 +250,62 @@ theorem subAccept_length (r : Region) (n : List Nat) (s : Region) (h : subAccept
   simp only [Bool.and_eq_true, decide_eq_true_eq] at h
   exact ⟨h.1.1.1, h.1.2.1⟩
 
-/-- what the `subregions` setter leaves behind, for candidates built by `Region(p1=…, p2=…)` -/
+/-- the subregion the setter stores for a candidate: its corners, the mesh's names, units, tolerance -/
+def restampT (r : TReg) (p : String × TReg) : String × TReg :=
+  (p.1, ({ p.2 with dims := r.dims, units := r.units, tol := r.tol } : TReg))
+
+/-- **what the `subregions` setter leaves behind, for ANY (valid) candidate regions**: the names,
+the candidates re-stamped, each of them passing the three tests as it is stored -/
 theorem setSubs_ok (r : TReg) (hr : r.Inv) (n : List Nat) (subs ss : List (String × TReg))
-    (hplain : ∀ p ∈ subs, p.2.Inv ∧ p.2.isPlain) (h : setSubs r n subs = .ok ss) :
-    ss.map (fun p => p.1) = subs.map (fun p => p.1) ∧ ∀ p ∈ ss, subInvB r n p.2 = true := by
+    (hinv : ∀ p ∈ subs, p.2.Inv) (h : setSubs r n subs = .ok ss) :
+    ss.map (fun p => p.1) = subs.map (fun p => p.1) ∧ (∀ p ∈ ss, subInvB r n p.2 = true) ∧
+    (∀ p ∈ subs, candOk r n p.2 = true) ∧ ss = subs.map (restampT r) := by
   unfold setSubs at h
   split at h
   · cases h
   · rename_i hall
-    have hall' : ∀ p ∈ subs, subAccept r.toRegion n p.2.toRegion = true := by
-      have : subs.all (fun p => subAccept r.toRegion n p.2.toRegion) = true := by simpa using hall
+    have hall' : ∀ p ∈ subs, candOk r n p.2 = true := by
+      have : subs.all (fun p => candOk r n p.2) = true := by simpa using hall
       exact List.all_eq_true.mp this
-    constructor
-    · apply mapE_ok_keys _ _ _ _ h
-      intro a b hab
-      unfold rebuildSub at hab
-      obtain ⟨s, _, hs⟩ := bind_eq_ok _ _ _ hab
-      cases hs
+    have hnd : r.toRegion.ndim = r.ndim := by
+      show r.pmin.vals.length = r.pmin.length
+      rw [NumArr.vals_length]
+    have hlen : ∀ p ∈ subs, p.2.pmin.length = r.ndim := by
+      intro p hp
+      have := hall' p hp
+      rw [candOk_eq r hr n p.2 (hinv p hp)] at this
+      obtain ⟨a1, _⟩ := subAccept_length _ _ _ this
+      have a1' : p.2.pmin.vals.length = r.toRegion.ndim := a1
+      rwa [NumArr.vals_length, hnd] at a1'
+    have hreb : ∀ p ∈ subs, rebuildSub r p = .ok (restampT r p) := by
+      intro p hp
+      obtain ⟨h0, hl, hk, _, _, _, hlt⟩ := (TReg.inv_iff p.2).mp (hinv p hp)
+      obtain ⟨_, _, _, hd, hu, hdup, _⟩ := (TReg.inv_iff r).mp hr
+      have l1 : p.2.pmin.length = r.pmin.length := hlen p hp
+      unfold rebuildSub
+      rw [init_ordered p.2.pmin p.2.pmax (some r.dims) (some r.units) r.dims r.units r.tol h0 hl hk
+        (dimsOk_some _ _ (by rw [l1, hd]) hdup) (unitsOk_some _ _ (by rw [l1, hu])) hlt]
       rfl
-    · intro q hq
-      obtain ⟨p, hp, hreb⟩ := mapE_ok_mem _ _ _ h q hq
-      unfold rebuildSub at hreb
-      obtain ⟨s, hs, hq'⟩ := bind_eq_ok _ _ _ hreb
-      cases hq'
-      obtain ⟨hpinv, hpp⟩ := hplain p hp
-      obtain ⟨hsinv, e1, e2, e3, _, _, e4, e5, _, _⟩ := init_ok _ _ _ _ _ _ hs
-      obtain ⟨m1, m2⟩ := inv_min_max p.2 hpinv
-      rw [m1] at e1
-      rw [m2] at e2
-      obtain ⟨_, hl, hk, _, _, _, hlt⟩ := (TReg.inv_iff p.2).mp hpinv
-      obtain ⟨a1, a2⟩ := subAccept_length _ _ _ (hall' p hp)
-      have hnd : r.toRegion.ndim = r.ndim := by
-        show r.pmin.vals.length = r.pmin.length
-        rw [NumArr.vals_length]
-      have l1 : p.2.pmin.length = r.ndim := by
-        have : p.2.pmin.vals.length = r.toRegion.ndim := a1
-        rwa [NumArr.vals_length, hnd] at this
-      rw [subInv_iff]
-      simp only
-      rw [e1, e2, e3, e4 _ rfl, e5 _ rfl]
-      refine ⟨l1, by rw [hl, l1], hk, rfl, rfl, rfl, fun a ha => hlt a (by rw [l1]; exact ha), ?_⟩
-      rw [← plain_toRegion p.2 hpp]
-      exact hall' p hp
+    have hss : ss = subs.map (restampT r) := by
+      have := mapE_ok_of (rebuildSub r) (restampT r) subs hreb
+      rw [this] at h
+      cases h
+      rfl
+    refine ⟨by rw [hss, List.map_map]; rfl, ?_, hall', hss⟩
+    intro q hq
+    rw [hss] at hq
+    simp only [List.mem_map] at hq
+    obtain ⟨p, hp, rfl⟩ := hq
+    obtain ⟨h0, hl, hk, _, _, _, hlt⟩ := (TReg.inv_iff p.2).mp (hinv p hp)
+    have l1 := hlen p hp
+    rw [subInv_iff]
+    refine ⟨l1, by show p.2.pmax.length = _; rw [hl, l1], hk, rfl, rfl, rfl, fun a ha => hlt a (by rw [l1]; exact ha), ?_⟩
+    have hc := hall' p hp
+    rw [candOk_eq r hr n p.2 (hinv p hp)] at hc
+    have : (restampT r p).2.toRegion =
+        { ({ p.2.toRegion with tol := r.tol.val } : Region) with dims := r.dims, units := r.units } := rfl
+    rw [this, subAccept_dims_units]
+    exact hc
 
 /-- **`_MeshIO_HDF5._h5_load` establishes the mesh invariant**, for every group it accepts -/
 theorem meshLoad_inv (h : H5Mesh) (m : TMesh) (hm : meshLoad h = .ok m) : m.Inv := by
@@ -332,7 +346,7 @@ theorem meshLoad_inv (h : H5Mesh) (m : TMesh) (hm : meshLoad h = .ok m) : m.Inv 
       · rename_i h3
         obtain ⟨ss', hset, hm⟩ := bind_eq_ok _ _ _ hm
         cases hm
-        obtain ⟨hnames, hsub⟩ := setSubs_ok r hrinv _ ss ss' hcand.2 hset
+        obtain ⟨hnames, hsub, _, _⟩ := setSubs_ok r hrinv _ ss ss' (fun p hp => (hcand.2 p hp).1) hset
         rw [TMesh.inv_iff]
         refine ⟨hrinv, by simpa using h1, ?_, toLower_idem _, by simpa using h3, by rw [hnames]; exact hcand.1, hsub⟩
         intro k hk
